@@ -2,42 +2,22 @@
 // Solver counter-example(s) produced by Kani's concrete playback; replay with
 //   ./check C01 --replay /verif/replay/cases/c01__q__rs3_n5_len300.rs
 
-// failed check (assertion): assertion failed: r.rank(p) == exp
+// failed check (assertion): assertion failed: r.rank_zero(p) == p - exp
 #[test]
-fn kani_concrete_playback_rs3_n5_len300_18215129981431152893() {
+fn kani_concrete_playback_rs3_n5_len300_5447610148193514816() {
     let concrete_vals: Vec<Vec<u8>> = vec![
-        // 18446744073709551615ul
-        vec![255, 255, 255, 255, 255, 255, 255, 255],
-        // 18446744073709551615ul
-        vec![255, 255, 255, 255, 255, 255, 255, 255],
-        // 18446744073709551615ul
-        vec![255, 255, 255, 255, 255, 255, 255, 255],
-        // 18446744073709551615ul
-        vec![255, 255, 255, 255, 255, 255, 255, 255],
-        // 18446744073709551615ul
-        vec![255, 255, 255, 255, 255, 255, 255, 255],
-        // 18446744073709551487ul
-        vec![127, 255, 255, 255, 255, 255, 255, 255],
-    ];
-    kani::concrete_playback_run(concrete_vals, crate::c01::q::rs3_n5_len300);
-}
-
-// failed check (assertion): assertion failed: r.num_ones() == total
-#[test]
-fn kani_concrete_playback_rs3_n5_len300_5043617380414425536() {
-    let concrete_vals: Vec<Vec<u8>> = vec![
-        // 18446744073709551615ul
-        vec![255, 255, 255, 255, 255, 255, 255, 255],
-        // 18446744073709551615ul
-        vec![255, 255, 255, 255, 255, 255, 255, 255],
-        // 18446744073709551615ul
-        vec![255, 255, 255, 255, 255, 255, 255, 255],
-        // 18446744073709551615ul
-        vec![255, 255, 255, 255, 255, 255, 255, 255],
-        // 18446744073709551615ul
-        vec![255, 255, 255, 255, 255, 255, 255, 255],
-        // 259ul
-        vec![3, 1, 0, 0, 0, 0, 0, 0],
+        // 0ul
+        vec![0, 0, 0, 0, 0, 0, 0, 0],
+        // 0ul
+        vec![0, 0, 0, 0, 0, 0, 0, 0],
+        // 0ul
+        vec![0, 0, 0, 0, 0, 0, 0, 0],
+        // 0ul
+        vec![0, 0, 0, 0, 0, 0, 0, 0],
+        // 0ul
+        vec![0, 0, 0, 0, 0, 0, 0, 0],
+        // 9223372036854775808ul
+        vec![0, 0, 0, 0, 0, 0, 0, 128],
     ];
     kani::concrete_playback_run(concrete_vals, crate::c01::q::rs3_n5_len300);
 }
